@@ -9,30 +9,38 @@ import rbcommon as rb
 
 
 def on_disagreement(c, binary, ln, il, ml, d):
-    f = ln.split()
-    cont, cmpn, ops = f[0], f[1], f[3:]
+    cont, cmpn, items = rb.case_items(ln)     # (op, observed?) pairs: re-runs keep the observation pattern
+    ops = [o for o, _ in items]
     i, fld, ri, rm = d
     c.cov["disagreeing_histories"] = c.cov.get("disagreeing_histories", 0) + 1
     opn = rb.OPNAME.get((cont, ops[i].split(",")[0]), "?") if i < len(ops) else "?"
 
     def impl_of(cand):
-        line = "%s %s 1 %s" % (cont, cmpn, " ".join(cand))
+        line = rb.line_of(cont, cmpn, cand)
         impl = rb.run_impl(c, binary, [line], timeout=60)
         return line, impl[0]
 
-    line, a = impl_of(ops)                      # stride 1: every state is observed
+    walk_of = lambda cand: rb.walk_history(cont, cmpn, [o for o, _ in cand], impl_of(cand)[1])
+    line, a = impl_of(items)                    # the original observation pattern ...
     w = rb.walk_history(cont, cmpn, ops, a)
+    if w is None:                               # ... and, for the walker only, every state observed
+        full = [(o, "1") for o in ops]
+        if walk_of(full) is not None:
+            items = full
+            line, a = impl_of(items)
+            w = rb.walk_history(cont, cmpn, ops, a)
     if w is not None:
         sig = "C02:%s:invalid-tree" % cont                   # coarse: container + verdict
         if any(len(v) > 2 and v[2] == sig for v in c.violations) or len(c.violations) >= 6:
             return
-        trunc = ops[:w[0] + 1]
-        bad = lambda cand: rb.walk_history(cont, cmpn, cand, impl_of(cand)[1]) is not None
+        trunc = items[:w[0] + 1]
+        bad = lambda cand: walk_of(cand) is not None
         mini = rb.minimise(trunc, bad)
-        comp = rb.compact_keys(mini, cmpn)
+        comp = rb.compact_items(mini, cmpn)
         if bad(comp):
             mini = comp
         line, a = impl_of(mini)
+        mini = [o for o, _ in mini]
         j, reasons = rb.walk_history(cont, cmpn, mini, a)
         rec = rb.records(a)[j]
         opn2 = rb.OPNAME.get((cont, mini[j].split(",")[0]), "?")
@@ -52,17 +60,19 @@ def on_disagreement(c, binary, ln, il, ml, d):
     def differs(cand):
         l2, a2 = impl_of(cand)
         m2 = c.run_model("rb", l2 + "\n")[0]
-        return rb.first_diff(cont, a2, m2, rb.WHITE) is not None and rb.walk_history(cont, cmpn, cand, a2) is None
+        return rb.first_diff(cont, a2, m2, rb.WHITE) is not None and \
+            rb.walk_history(cont, cmpn, [o for o, _ in cand], a2) is None
 
-    mini = ops
-    if differs(ops):
+    mini = items
+    if differs(items):
         d1 = rb.first_diff(cont, a, c.run_model("rb", line + "\n")[0], rb.WHITE)
         # a hang / crash loses the whole line: the culprit may be any op, keep them all
-        mini = rb.minimise(ops if a.startswith("<") else ops[:d1[0] + 1], differs, budget=160)
+        mini = rb.minimise(items if a.startswith("<") else items[:d1[0] + 1], differs, budget=160)
     l2, a2 = impl_of(mini)
     m2 = c.run_model("rb", l2 + "\n")[0]
     d2 = rb.first_diff(cont, a2, m2, rb.WHITE)
-    if d2 is None:                       # not reproducible at stride 1: report the original observation
+    mini = [o for o, _ in mini]
+    if d2 is None:                       # not reproducible in a fresh run: report the original observation
         mini, l2, d2 = ops, ln, (i, fld, ri, rm)
     j, fl, ra, rm2 = d2
     c.report(sig,
@@ -95,6 +105,8 @@ def main(tier):
              "exact shape+colours from the white-box dump = model's tree, size field, parent-pointer flag = 0, comparator invocations = "
              "cmp_calls (TreeMap.Put that updates = two look-ups). The invariant walker additionally decides the property on the "
              "implementation's own dumps (all histories in quick, a 1/25 sample + all bounded-exhaustive ones in thorough). "
+             "Plus the sparse-observation histories of rbcommon.gen_sparse (state dumped only after ~1/3 of the ops, never inside size-neutral "
+             "Delete-then-Add runs; comparator-call counts still compared at every op). "
              "non-trivial = at least 3 successful insertions/deletions; distinct by md5 of the case text",
         assumptions=["the user's comparator is a strict weak order (Section hypotheses of the theorems)",
                      "parent-link consistency is a theorem about the pointer-level model RBPtrModel.v (props/C02_ptr.v: parent_links_consistent; "
